@@ -1,8 +1,9 @@
 #!/bin/bash
-# usage: confirm_seed.sh <ID> [demo args...]  -- confirm a seeded defect in its scratch worktree /tmp/wt-<ID> at /repo's HEAD:
-# baseline OK with the patch, demo fails with the patch, demo passes without it. Writes /tmp/seeds/<ID>/confirm.log
+# usage: [ROUND=2] confirm_seed.sh <ID> [demo args...]  -- confirm a seeded defect in its scratch worktree /tmp/wt<ROUND>-<ID> at /repo's HEAD:
+# baseline OK with the patch, demo fails with the patch, demo passes without it. Writes /tmp/seeds<ROUND>/<ID>/confirm.log
 ID="$1"; shift
-WT=/tmp/wt-$ID; S=/tmp/seeds/$ID
+R="${ROUND:-}"
+WT=/tmp/wt$R-$ID; S=/tmp/seeds$R/$ID
 exec > "$S/confirm.log" 2>&1
 set -x
 cd "$WT" || exit 2
